@@ -7,5 +7,5 @@ D=$V/seeded/$1; shift
 M=/tmp/mrepo_$$
 rm -rf $M; mkdir -p $M; git -C /repo archive HEAD | tar -x -C $M
 (cd $M && patch -p1 -s < $D/patch.diff) || { echo "patch failed"; rm -rf $M; exit 2; }
-for c in "$@"; do echo "== $c"; (cd $V && SYMMRAY_REPO=$M ./check $c 2>&1 | grep -E "VIOLATION|KNOWN|Traceback|Error" | cut -c1-160 | head -5; echo "rc=$?"; ); done
+for c in "$@"; do echo "== $c"; (cd $V && SYMMRAY_REPO=$M VERIF_EVIDENCE_DIR=$M/.evidence ./check $c 2>&1 | grep -E "VIOLATION|KNOWN|Traceback|Error" | cut -c1-160 | head -5; ); done
 rm -rf $M
